@@ -14,7 +14,7 @@ RULE = ("exception codes 0..255 x {read, write, write-multi} x {udp-rtu, tcp} x 
         "(transport, keep-alive, command kind, code, j, delay, entry) tuples")
 ASSUMPTIONS = ["reason texts are the standard Modbus exception names (table copied from the specification into refcodec)",
                "virtual clock: 'at once' means zero virtual time between delivery of the exception frame and the return"]
-MUST = ["poll_blocks_rejected_in_turn", "family_level_rejection", "rejected_after_a_request_served_on_retransmission", "public_entry_dt", "named_setting_write", "two_tcp_objects_overlapping", "command_for_another_unit", "tcp_exception_with_wrong_mbap_length", "second_request_rejected", "rejected_after_lone_fragment", "rejected_udp", "rejected_tcp", "after_drops", "delayed_exception", "unknown_code", "public_entry"]
+MUST = ["compound_call_write_rejected", "public_entry_es", "poll_blocks_rejected_in_turn", "family_level_rejection", "rejected_after_a_request_served_on_retransmission", "public_entry_dt", "named_setting_write", "two_tcp_objects_overlapping", "command_for_another_unit", "tcp_exception_with_wrong_mbap_length", "second_request_rejected", "rejected_after_lone_fragment", "rejected_udp", "rejected_tcp", "after_drops", "delayed_exception", "unknown_code", "public_entry"]
 EXHAUSTIVE = {"quick": True, "thorough": True}
 EPS = 1e-6
 
@@ -25,6 +25,8 @@ def scenario(transport, ka, T, R, kind, code, j, delay, entry):
         step = ["rsensor", 400] if kind == "read" else ["wsetting", 400, -2]
     elif entry == "public-dt":          # the DT family class has its own copies of read_sensor / read_setting / write_setting
         step = ["rsensor", 400] if kind == "read" else ["wsetting", 400, -2]
+    elif entry == "public-es":          # ... and so has the ES family (raw Modbus register access next to its AA55 commands)
+        step = ["api", "read_setting", "modbus-400"] if kind == "read" else ["api", "write_setting", "modbus-400", -2]
     elif entry == "named":              # write of a NAMED setting (single-register write; ET and DT offer 'grid_export_limit')
         step = ["api", "write_setting", "grid_export_limit", 50]
     elif entry == "unit":      # the command object was built for unit 0x7F / 0x11, the transport object for the inverter's default address
@@ -32,7 +34,7 @@ def scenario(transport, ka, T, R, kind, code, j, delay, entry):
     else:
         step = {"read": ["read", 400, 3], "write": ["write", 400, -2], "multi": ["multi", 400, "00010002fffe"]}[kind]
     return {"transport": transport, "framing": framing, "keep_alive": ka, "T": T, "R": R, "code": code, "j": j,
-            "kind": kind, "entry": entry, "delay": delay, **({"family": "DT"} if entry in ("public-dt",) or (entry == "named" and code % 2) else {}),
+            "kind": kind, "entry": entry, "delay": delay, **({"family": "DT"} if entry in ("public-dt",) or (entry == "named" and code % 2) else {"family": "ES"} if entry == "public-es" else {}),
             "script": ["drop"] * j + [["exc", code, delay]], "after": "drop",
             "tasks": [{"start": 0.0, "steps": [step]}]}
 
@@ -126,6 +128,8 @@ def check_run(sc, run, part: Part):
             part.count("command_for_another_unit")
         if sc["entry"] == "public-dt":
             part.count("public_entry_dt")
+        if sc["entry"] == "public-es":
+            part.count("public_entry_es")
         if sc["entry"] == "named":
             part.count("named_setting_write")
         if sc.get("second"):
@@ -259,6 +263,82 @@ def family_level_part(part):
         part.see(f"family-level|{port}|{code}|{kw['tag']}|{block}")
 
 
+def compound_calls_part(part):
+    """public calls that consist of several requests (operation-mode setters, export limit, depth of discharge, one-byte settings): each
+    WRITE of the sequence in turn is answered with an exception frame; the call must end with RequestRejectedException(reason) and the
+    refused write must not be transmitted again (the sequence is first recorded against an inverter that accepts everything)"""
+    from .. import env, models
+    g = env.goodwe()
+    OM = g.OperationMode
+
+    def calls_of(fam):
+        cs = [("set_grid_export_limit", 1500), ("write_setting", "grid_export_limit", 40)]
+        if fam != "DT":
+            cs += [("set_ongrid_battery_dod", 40), ("write_setting", "eco_mode_1_switch", -1), ("set_operation_mode", OM.GENERAL),
+                   ("set_operation_mode", OM.BACKUP), ("set_operation_mode", OM.ECO), ("set_operation_mode", OM.ECO_CHARGE, 40, 70),
+                   ("set_operation_mode", OM.ECO_DISCHARGE, 35), ("set_operation_mode", OM.OFF_GRID), ("set_operation_mode", OM.PEAK_SHAVING, 30, 50)]
+        return cs
+
+    def mksim(fam, variant):
+        if fam == "ET":
+            return models.et_sim(tag="ETU" if variant == 0 else "ETT", rated=10000, refused_blocks=["eco_v2"] if variant == 2 else [])
+        if fam == "DT":
+            return models.dt_sim(tag="DTU" if variant == 0 else "DSN")
+        return models.es_sim(fw=b"2225F")
+
+    for fam, port, variant in (("ET", 8899, 0), ("ET", 502, 1), ("ET", 8899, 2), ("DT", 8899, 0), ("DT", 502, 1), ("ES", 8899, 0)):
+        for call in calls_of(fam):
+            sim = mksim(fam, variant)
+            st = {}
+
+            async def probe(loop):
+                inv = models.family_cls(g, fam)("inv0", port, 0, 1, 1)
+                await inv.read_device_info()
+                st["n0"] = len(sim.log)
+                await getattr(inv, call[0])(*call[1:])
+            run = engine.run_custom({("inv0", port): sim}, probe, vtime_cap=600, tx_cap=600)
+            if run.stop or run.error is not None:
+                continue            # (a mode this model does not offer, a setting it lacks: not a compound call of this model)
+            writes = [(i, r[2]) for i, r in enumerate(sim.log[st["n0"]:]) if r[2]["kind"] in ("write", "multi")]
+            for k, (idx, wreq) in enumerate(writes):
+                code = (6, 3, 4, 1)[k % 4]
+                sim2 = mksim(fam, variant)
+                key = (rc.fc_of(wreq), wreq["reg"])
+                nth = sum(1 for _, w in writes[:k] if (rc.fc_of(w), w["reg"]) == key)      # the same register may be written twice in one call
+                seen = {"n": 0}
+                orig = sim2.handle
+
+                def handle(req, kind, _o=orig, _key=key, _nth=nth, _seen=seen, _code=code):
+                    if req["kind"] in ("write", "multi") and (rc.fc_of(req), req["reg"]) == _key:
+                        _seen["n"] += 1
+                        if _seen["n"] >= _nth + 1:
+                            return (rc.tcp_exception if kind == "tcp" else rc.rtu_exception)(req, _code)
+                    return _o(req, kind)
+                sim2.handle = handle
+                res = {}
+
+                async def flow(loop):
+                    inv = models.family_cls(g, fam)("inv0", port, 0, 1, 1)
+                    await inv.read_device_info()
+                    try:
+                        await getattr(inv, call[0])(*call[1:])
+                        res["out"] = ("returned", "")
+                    except Exception as e:      # noqa
+                        res["out"] = (type(e).__name__, getattr(e, "message", str(e)))
+                run2 = engine.run_custom({("inv0", port): sim2}, flow, vtime_cap=600, tx_cap=600)
+                part.evaluations += 1
+                tr = "udp" if port == 8899 else "tcp"
+                what = f"{fam}.{call[0]}{tuple(str(a) for a in call[1:])}: write #{k + 1} of the sequence ({wreq['kind']} {wreq['reg']}) answered with exception {code}"
+                if run2.stop or run2.error is not None or res.get("out") != ("RequestRejectedException", rc.reason(code)):
+                    part.violate(f"C08/{tr}/not-rejected", f"{what}: ended {res.get('out')} {run2.stop or ''} instead of "
+                                 f"RequestRejectedException({rc.reason(code)!r})", {"compound": True})
+                elif seen["n"] - nth != 1:
+                    part.violate(f"C08/{tr}/retransmitted-after-exception", f"{what}: the refused write was transmitted {seen['n'] - nth} times", {"compound": True})
+                else:
+                    part.count("compound_call_write_rejected")
+                part.see(f"compound|{fam}|{port}|{call[0]}|{call[1] if len(call) > 1 else ''}|{k}")
+
+
 def plan(tier, seed):
     specs = []
     for transport in ("udp", "tcp"):
@@ -275,6 +355,8 @@ def run_shard(spec):
     if spec["transport"] == "tcp" and spec["kind"] == "read" and spec["ka"]:
         two_objects_part(part)
         family_level_part(part)
+    if spec["transport"] == "udp" and spec["kind"] == "write" and spec["ka"]:
+        compound_calls_part(part)
     for T in spec["Ts"]:
         for code in range(256):
             for j in range(R + 1):
@@ -287,6 +369,7 @@ def run_shard(spec):
                 run_case(scenario(spec["transport"], spec["ka"], T, R, spec["kind"], code, j, 0.0, "unit"), part)
             if spec["kind"] != "multi":
                 run_case(scenario(spec["transport"], spec["ka"], T, R, spec["kind"], code, 0, 0.0, "public-dt"), part)
+                run_case(scenario(spec["transport"], spec["ka"], T, R, spec["kind"], code, code % 2, 0.0, "public-es"), part)
             if spec["kind"] == "write":
                 for j in (0, 1):
                     run_case(scenario(spec["transport"], spec["ka"], T, R, "write", code, j, 0.0, "named"), part)
@@ -309,6 +392,9 @@ def replay(case):
     part = Part()
     if case.get("family_level"):
         family_level_part(part)
+        return [{"key": v["key"], "msg": v["msg"]} for v in part.violations]
+    if case.get("compound"):
+        compound_calls_part(part)
         return [{"key": v["key"], "msg": v["msg"]} for v in part.violations]
     if case.get("two_objects"):
         two_objects_part(part)
